@@ -2,8 +2,8 @@
    Statements only; every proof is `exact <lemma of Proofs/C08_*.v>`.
    Quantification: every pin value / every decoded protobuf message (fields arbitrary or absent). *)
 From V Require Import Base.Common Base.C08_Str Model.C08_Codec Model.C08_Query Model.C08_Status Model.C08_Equals
-  Base.C08_Schema Gen.C08Tags Model.C08_Fmap Model.C08_Wire Model.C08_Reuse
-  Proofs.C08_Codec Proofs.C08_Query Proofs.C08_Status Proofs.C08_Equals Proofs.C08_Fmap Proofs.C08_Wire Proofs.C08_Reuse.
+  Base.C08_Schema Gen.C08Tags Model.C08_Fmap Model.C08_Wire Model.C08_Reuse Model.C08_AddParams
+  Proofs.C08_Codec Proofs.C08_Query Proofs.C08_Status Proofs.C08_Equals Proofs.C08_Fmap Proofs.C08_Wire Proofs.C08_Reuse Proofs.C08_AddParams.
 From Coq Require Import Permutation.
 Open Scope string_scope.
 Open Scope Z_scope.
@@ -305,3 +305,34 @@ Theorem stream_decode_reused_refuted : forall c,
     stream_decode c api_schema t true (zero_val t) ws <> Ok vs.
 Proof. exact stream_reused_refuted_l. Qed.
 Print Assumptions stream_decode_reused_refuted.
+
+(* ---- query form of the add parameters (api/add.go: AddParams.ToQueryString / AddParamsFromQuery) ---- *)
+
+(* add parameters whose pin options are well-formed for the query form (wf_q: texts the trusted parsers accept, no ","),
+   whose layout and format are names the decoder accepts (or empty) and whose cid-version fits the 64-bit int come back
+   unchanged - every boolean either way, every number including 0, every text including the empty one -, except: of the pin
+   options, metadata entries with the empty key and PinUpdate (AddParamsFromQuery forces it to undefined); an EMPTY chunker
+   or hash function reads back as the default one. For every oracle and every clock reading. In particular nothing is
+   filled in from DefaultAddParams() when the sender's value is zero: a shard size of 0 stays 0. *)
+Theorem addparams_query_roundtrip orc now p : wf_ap orc p = true ->
+  match add_params_to_query orc p with Ok q => add_params_from_query orc now q | Err => Err end = Ok (lossy_ap p).
+Proof. exact (addparams_query_roundtrip_l orc now p). Qed.
+Print Assumptions addparams_query_roundtrip.
+
+(* ShardSize 0, replication 0, empty name, every boolean false (stream-channels too, whose default is true): read back as sent *)
+Example addparams_zero_example :
+  let orc := mk_orc [] [] [] [] [] in
+  let p := mk_addp zero_opts false false false false false false "" "" "size-262144" false false 0 "sha2-256" false in
+  wf_ap orc p = true /\ lossy_ap p = p /\
+  add_params_to_query orc p = Ok [("replication-min", "0"); ("replication-max", "0"); ("name", ""); ("mode", "recursive"); ("shard-size", "0");
+                                   ("user-allocations", ""); ("shard", "false"); ("local", "false"); ("recursive", "false"); ("layout", "");
+                                   ("chunker", "size-262144"); ("raw-leaves", "false"); ("hidden", "false"); ("wrap-with-directory", "false");
+                                   ("progress", "false"); ("cid-version", "0"); ("hash", "sha2-256"); ("stream-channels", "false");
+                                   ("nocopy", "false"); ("format", "")] /\
+  match add_params_to_query orc p with Ok q => add_params_from_query orc (0, 0%N) q | Err => Err end = Ok p /\
+  (* the decoder's defaults apply to absent keys only; and parsing the pin options on top of the defaults instead of a fresh
+     value would need every option to be written, shard-size 0 included *)
+  add_params_from_query orc (0, 0%N) [] = Ok (mk_addp (mk_opts 0 0 "" 0 0 [] None [] None []) false false false false false true "" "" "size-262144" false false 0 "sha2-256" false) /\
+  option_map (fun a => shard_size (a_opts a)) (match add_params_from_query_on default_opts orc (0, 0%N) [("shard", "true")] with Ok a => Some a | Err => None end)
+    = Some default_shard_size.
+Proof. vm_compute. repeat split. Qed.
